@@ -45,31 +45,43 @@ Lemma txlog_extents_disjoint c ops o w x : 0 < c_maxactive c ->
   In w (s_txlog (fst (step H s o))) -> ~ In w (s_txlog s) -> live_record s x -> w_end x <= w_off w.
 Proof. intros Hm s. apply (txlog_extents_disjoint_lemma H). apply reach; auto. Qed.
 
-Lemma discard_respects_committed (s : state) n :
+Lemma discard_respects_committed c ops n : 0 < c_maxactive c ->
+  let s := run H (init H c) ops in
   let s' := fst (discard s n) in
   s_committed s' = s_committed s /\ committed_state s' = committed_state s /\
-  s_clog s' = s_clog s /\ s_txlog s' = s_txlog s /\
+  s_clog s' = s_clog s /\
+  (forall k, 1 <= k -> k <= s_committed s -> read_tx s' k = read_tx s k) /\
   (n <= s_committed s -> exists e, snd (discard s n) = Err e).
-Proof. apply discard_respects_committed_lemma. Qed.
+Proof. intros Hm s. apply (discard_respects_committed_lemma H). apply reach; auto. Qed.
 
-Lemma reopen_same_history_partial c ops : 0 < c_maxactive c ->
+Lemma reopen_same_history c ops : 0 < c_maxactive c ->
   let s := run H (init H c) ops in
   let s' := fst (step H s OReopen) in
-  s_committed s <= s_committed s' /\
+  committed_state s' = committed_state s /\
   forall k, 1 <= k -> k <= s_committed s -> read_tx s' k = read_tx s k.
 Proof.
-  intros Hm s. apply (step_hist H s OReopen). apply (reachable_inv H). apply reach; auto.
+  intros Hm s. assert (HI : Inv H s) by (apply (reachable_inv H); apply reach; auto).
+  pose proof (step_hist H s OReopen HI) as [_ Hh].
+  cbn [step] in *. pose proof (reopen_committed H s HI) as Ec.
+  split; [|exact Hh].
+  destruct (state_is_last_lemma H s (reach c ops Hm)) as [A0 A1].
+  assert (Hr' : reachable H (fst (reopen H s))).
+  { exists c, (ops ++ [OReopen]). split; auto. rewrite run_app. reflexivity. }
+  destruct (state_is_last_lemma H _ Hr') as [B0 B1]. unfold committed_state in *. cbn [snd] in *.
+  rewrite Ec. f_equal.
+  destruct (N.eq_dec (s_committed s) 0) as [Ez|Nz].
+  - rewrite (A0 Ez). apply B0. lia.
+  - destruct (A1 ltac:(lia)) as (r & R & <-). destruct (B1 ltac:(lia)) as (r' & R' & <-).
+    rewrite Ec, Hh in R' by lia. congruence.
 Qed.
 
-(* every BlRoot is the Merkle root over the earlier Alh values (or a collision of H is exhibited), in
-   every execution whose reopens find no commit-log entries beyond the committed id *)
+(* every BlRoot is the Merkle root over the earlier Alh values (or a collision of H is exhibited) *)
 Lemma blroot c ops k r : (forall x, length (H x) = 32%nat) -> 0 < c_maxactive c ->
-  reopens_clean H (init H c) ops ->
   let s := run H (init H c) ops in
   1 <= k -> k <= s_committed s -> read_tx s k = Ok r -> 0 < h_bltxid (r_hdr r) ->
   h_blroot (r_hdr r) = mth H (alhs s (h_bltxid (r_hdr r))) \/ Collision H.
 Proof.
-  intros HL Hm Hc s. apply (blroot_lemma H HL).
+  intros HL Hm s. apply (blroot_lemma H HL).
   - apply (run_inv H). apply init_inv. exact Hm.
   - apply run_inv2; auto. apply init_inv; auto. apply init_inv2; auto.
 Qed.
@@ -86,17 +98,6 @@ Proof.
 Qed.
 
 End T.
-
-(* the premise of blroot is satisfiable by runs that DO reopen *)
-Example reopens_clean_satisfiable :
-  let c := {| c_synced := false; c_embedded := false; c_version := 1; c_maxactive := 10; c_maxentries := 64;
-              c_maxkey := 128; c_maxval := 4096; c_ext0 := false; c_maxconc := 8; c_prealloc := false |} in
-  let H := fun b : bytes => firstn 32 (b ++ repeat 0 32) in
-  let tx k := {| p_entries := [{| k_key := [k]; k_md := []; k_val := [k] |}]; p_md := None; p_ts := 5;
-                 p_precond := None; p_cancel := false |} in
-  let ops := [OBegin 0 (tx 1) None false; OLocked 0; OReopen; OBegin 1 (tx 2) None false; OLocked 1; OReopen] in
-  reopens_clean H (init H c) ops /\ s_committed (run H (init H c) ops) = 2.
-Proof. vm_compute. repeat split; intros; reflexivity. Qed.
 
 (* premises are satisfiable: a concrete execution with three committed transactions *)
 Example premises_satisfiable :
